@@ -65,7 +65,7 @@ StreamsOf(rk) == Range(rk.streams)
 C06(r) ==
   IF r.err # "" THEN [no_exception |-> FALSE] ELSE
   [ no_exception |-> TRUE,
-    in_domain    |-> All(r, LAMBDA rk : WellFormedRows(Rows(rk)) /\ StrictSerial(Rows(rk))),
+    in_domain    |-> All(r, LAMBDA rk : WellFormedRows(Rows(rk)) /\ SerialWithTies(Rows(rk))),
     input_faithful |-> All(r, LAMBDA rk : RowsFaithful(Rows(rk), Range(rk.file)) /\ LinksFaithful(Rows(rk), Range(rk.file))),
     idle_by_cat  |-> All(r, LAMBDA rk : \A s \in StreamsOf(rk) : \A c \in Cats :
                            Reported(rk, s, c) = IdleSum(Rows(rk), s, c, r.thr)),
